@@ -25,6 +25,9 @@ type vcfg struct {
 // structural choice, immutable flag symbolic.
 func symCfg() vcfg {
 	c := vcfg{primary: MultihashPrimary}
+	if vrt.Param("cidprimary", 0) != 0 {
+		c.primary = CIDPrimary // single-file primary keyed by CID; the index key is the digest
+	}
 	switch vrt.Choose("bits", vrt.Param("bitchoices", 1)) {
 	case 0:
 		c.bits = 8
@@ -83,6 +86,10 @@ func mkKeys(K, L int, bits uint8) [][]byte {
 		pfx := uint32(d[0]) | uint32(d[1])<<8 | uint32(d[2])<<16 | uint32(d[3])<<24
 		vrt.Assume(pfx&mask == bvals[vrt.Choose("bucket", 2)])
 		keys[i] = append([]byte{0x00, byte(L)}, d...)
+		if vrt.Param("cidprimary", 0) != 0 {
+			// CIDv1, raw codec, identity multihash
+			keys[i] = append([]byte{0x01, 0x55}, keys[i]...)
+		}
 		for j := 0; j < i; j++ {
 			vrt.Assume(!bytes.Equal(keys[i], keys[j]))
 		}
